@@ -1,4 +1,5 @@
 import Clikit.Lemmas.ParserInv
+import Clikit.Model.Sem
 /-!
 Step lemmas of the token loop (C01): what one spelled item - a positional, `--name=value`,
 `--name value`, `--name`, `-nvalue`, `-n value`, `-n`, a group of short flags - does to the
@@ -261,5 +262,293 @@ theorem step_long (f : Fmt) (len : Bool) (name : Str) (rest : List Str) (σ : St
   have h0 : (('-' :: '-' :: name) == ([] : Str)) = false := by simp
   simp only [h0, h1, h2, Bool.true_and, Bool.false_eq_true, if_false, if_true, List.drop_succ_cons, List.drop_zero]
   same_match
+
+
+/-! ### Short options -/
+
+/-- a token `-x…` (x not a dash) is handed to `_parse_short_option` -/
+theorem step_short (f : Fmt) (len : Bool) (c : Char) (r : Str) (rest : List Str) (σ : St) (hc : c ≠ '-') :
+    step f len ('-' :: c :: r) rest true σ =
+      match parseShort f (c :: r) rest σ with
+      | .error e => .error e
+      | .ok (σ', rest') => .ok (σ', rest', true) := by
+  unfold step
+  have h0 : (('-' :: c :: r) == ([] : Str)) = false := by simp
+  have h1 : (('-' :: c :: r) == ['-', '-']) = false := by cases r <;> simp [hc]
+  have h2 : (('-' :: c :: r).take 2 == ['-', '-']) = false := by simp [hc]
+  have h3 : (('-' :: c :: r) != ['-']) = true := by simp
+  simp only [h0, h1, h2, h3, shortTest, Bool.true_and, Bool.false_eq_true, if_false, if_true, beq_self_eq_true,
+    Bool.and_self, List.drop_succ_cons, List.drop_zero]
+  same_match
+
+theorem addShort_eq (f : Fmt) (c : Str) (o : Opt) (value : Option Str) (rest : List Str) (σ : St)
+    (hc : f.getOpt? c = some o) : addShort f c value rest σ = addLong f o.long value rest σ := by
+  simp [addShort, hc]
+
+/-- `-nVALUE` -/
+theorem parseShort_att (f : Fmt) (c : Char) (o : Opt) (v : Str) (rest : List Str) (σ : St)
+    (hc : f.getOpt? [c] = some o) (hl : f.getOpt? o.long = some o) (ha : o.accepts = true) (hv : v ≠ []) :
+    parseShort f (c :: v) rest σ = contOpt (storeOpt o o.long (some v) σ) rest := by
+  unfold parseShort
+  have hlen : v.length ≥ 1 := by cases v <;> simp_all
+  have hv' : (v == []) = false := by simp [hv]
+  simp only [if_pos hlen, hc, ha, if_true, addShort_eq f [c] o _ rest σ hc, addLong_val f o.long o v rest σ hl ha, hv',
+    Bool.false_eq_true, if_false]
+
+/-- `-n VALUE` -/
+theorem parseShort_sp (f : Fmt) (c : Char) (o : Opt) (v : Str) (rest : List Str) (σ : St)
+    (hc : f.getOpt? [c] = some o) (hl : f.getOpt? o.long = some o) (ha : o.accepts = true) (hv : valueLike v = true) :
+    parseShort f [c] (v :: rest) σ = contOpt (storeOpt o o.long (some v) σ) rest := by
+  unfold parseShort
+  have hv' : (v == []) = false := by cases v <;> simp_all [valueLike]
+  have hn : ¬ (([] : Str).length ≥ 1) := by simp
+  simp only [if_neg hn, hc, ha, if_true, popValue_take v rest hv, addShort_eq f [c] o _ rest σ hc,
+    addLong_val f o.long o v rest σ hl ha, hv', Bool.false_eq_true, if_false]
+
+/-- `-n` for a flag, or for an option whose value is optional when nothing usable follows -/
+theorem parseShort_bare (f : Fmt) (c : Char) (o : Opt) (rest : List Str) (σ : St)
+    (hc : f.getOpt? [c] = some o) (hl : f.getOpt? o.long = some o) (hs : o.accepts = false ∨ stopsValue rest = true) :
+    parseShort f [c] rest σ = contOpt (storeOpt o o.long none σ) rest := by
+  unfold parseShort
+  have hn : ¬ (([] : Str).length ≥ 1) := by simp
+  simp only [if_neg hn, hc]
+  cases ha : o.accepts with
+  | false =>
+    simp only [Bool.false_eq_true, if_false, addShort_eq f [c] o _ rest σ hc]
+    exact addLong_none_flag f o.long o rest σ hl ha
+  | true =>
+    rcases hs with h | h
+    · rw [ha] at h; cases h
+    · simp only [if_true, popValue_stop rest h, addShort_eq f [c] o _ rest σ hc]
+      exact addLong_none_stop f o.long o rest σ hl h
+
+
+/-! ### The meaning of spelled items, without tokens -/
+
+theorem runSems_append (f : Fmt) (len : Bool) (a b : List Sem) (σ : St) :
+    runSems f len (a ++ b) σ =
+      match runSems f len a σ with
+      | .error e => .error e
+      | .ok σ' => runSems f len b σ' := by
+  induction a generalizing σ with
+  | nil => rfl
+  | cons s r ih =>
+    simp only [List.cons_append, runSems]
+    cases runSem f len s σ with
+    | error e => rfl
+    | ok σ' => exact ih σ'
+
+/-- a long option of the format, spelled by its long name -/
+def LongOK (f : Fmt) (o : Opt) : Prop := f.getOpt? o.long = some o ∧ '=' ∉ o.long ∧ o.long ≠ []
+
+/-- a short name `c` of the format denoting option `o` -/
+def ShortOK (f : Fmt) (o : Opt) (c : Char) : Prop :=
+  f.getOpt? [c] = some o ∧ f.getOpt? o.long = some o
+
+/-- the tokens a short-option token can look at: an optional separate value, then the rest -/
+def withTake (take : Option Str) (next : List Str) : List Str :=
+  match take with
+  | none => next
+  | some v => v :: next
+
+/-- the characters after the `-` of a short-option token and what they mean.
+`take = some v`: the last option of the group takes the following token `v` as its value. -/
+inductive GroupSpells (f : Fmt) : Option Str → List Str → Str → List Sem → Prop
+  | done {next} : GroupSpells f none next [] []
+  | flag {take next o c r sems} : ShortOK f o c → o.accepts = false → GroupSpells f take next r sems →
+      GroupSpells f take next (c :: r) (.opt o none :: sems)
+  | att {next o c r} : ShortOK f o c → o.accepts = true → r ≠ [] → GroupSpells f none next (c :: r) [.opt o (some r)]
+  | bare {next o c} : ShortOK f o c → o.accepts = true → stopsValue next = true →
+      GroupSpells f none next [c] [.opt o none]
+  | sp {next o c v} : ShortOK f o c → o.accepts = true → valueLike v = true →
+      GroupSpells f (some v) next [c] [.opt o (some v)]
+
+/-- result of an option sub-parser: the state after the items, and the tokens `next` left -/
+def optResult (r : PR St) (next : List Str) : PR (St × List Str) :=
+  match r with
+  | .error e => .error e
+  | .ok σ' => .ok (σ', next)
+
+theorem contOpt_eq_optResult (r : PR St) (next : List Str) : contOpt r next = optResult r next := by
+  cases r <;> rfl
+
+/-- `_parse_short_option_set` on the characters of a group does what the items mean -/
+theorem parseShortSet_group (f : Fmt) (len : Bool) {take : Option Str} {next : List Str} {chars : Str} {sems : List Sem}
+    (h : GroupSpells f take next chars sems) (σ : St) :
+    parseShortSet f chars (withTake take next) σ = optResult (runSems f len sems σ) next := by
+  induction h generalizing σ with
+  | done => rfl
+  | @flag take next o c r sems hs ha _ ih =>
+    unfold parseShortSet
+    simp only [hs.1, ha, Bool.false_eq_true, if_false, addLong_none_flag f o.long o _ σ hs.2 ha, runSems, runSem]
+    cases storeOpt o o.long none σ with
+    | error e => rfl
+    | ok σ' => simp only [contOpt]; exact ih σ'
+  | @att next o c r hs ha hr =>
+    unfold parseShortSet
+    have hre : r.isEmpty = false := by cases r <;> simp_all
+    have hr' : (r == []) = false := by simp [hr]
+    simp only [hs.1, ha, if_true, hre, Bool.false_eq_true, if_false, withTake,
+      addLong_val f o.long o r next σ hs.2 ha, hr', runSems, runSem, contOpt_eq_optResult]
+    cases storeOpt o o.long (some r) σ <;> rfl
+  | @bare next o c hs ha hstop =>
+    unfold parseShortSet
+    simp only [hs.1, ha, if_true, List.isEmpty_nil, withTake, addLong_none_stop f o.long o next σ hs.2 hstop,
+      runSems, runSem, contOpt_eq_optResult]
+    cases storeOpt o o.long none σ <;> rfl
+  | @sp next o c v hs ha hv =>
+    unfold parseShortSet
+    simp only [hs.1, ha, if_true, List.isEmpty_nil, withTake, addLong_none_take f o.long o v next σ hs.2 ha hv,
+      runSems, runSem, contOpt_eq_optResult]
+    cases storeOpt o o.long (some v) σ <;> rfl
+
+/-- `_parse_short_option` on the whole token: the single-option forms and the group form agree
+with the meaning of the items -/
+theorem parseShort_group (f : Fmt) (len : Bool) {take : Option Str} {next : List Str} {chars : Str} {sems : List Sem}
+    (h : GroupSpells f take next chars sems) (hne : chars ≠ []) (σ : St) :
+    parseShort f chars (withTake take next) σ = optResult (runSems f len sems σ) next := by
+  cases h with
+  | done => exact absurd rfl hne
+  | @flag take next o c r sems hs ha hrest =>
+    cases r with
+    | nil =>
+      cases hrest
+      rw [show withTake none next = next from rfl, parseShort_bare f c o next σ hs.1 hs.2 (Or.inl ha)]
+      simp only [runSems, runSem, contOpt_eq_optResult]
+      cases storeOpt o o.long none σ <;> rfl
+    | cons d ds =>
+      have hlen : (d :: ds).length ≥ 1 := by simp
+      have := parseShortSet_group f len (GroupSpells.flag hs ha hrest) σ
+      unfold parseShort
+      simp only [if_pos hlen, hs.1, ha, Bool.false_eq_true, if_false]
+      exact this
+  | @att next o c r hs ha hr =>
+    rw [show withTake none next = next from rfl, parseShort_att f c o r next σ hs.1 hs.2 ha hr]
+    simp only [runSems, runSem, contOpt_eq_optResult]
+    cases storeOpt o o.long (some r) σ <;> rfl
+  | @bare next o c hs ha hstop =>
+    rw [show withTake none next = next from rfl, parseShort_bare f c o next σ hs.1 hs.2 (Or.inr hstop)]
+    simp only [runSems, runSem, contOpt_eq_optResult]
+    cases storeOpt o o.long none σ <;> rfl
+  | @sp next o c v hs ha hv =>
+    rw [show withTake (some v) next = v :: next from rfl, parseShort_sp f c o v next σ hs.1 hs.2 ha hv]
+    simp only [runSems, runSem, contOpt_eq_optResult]
+    cases storeOpt o o.long (some v) σ <;> rfl
+
+
+/-! ### One spelled item, and a whole line -/
+
+def dd : Str := ['-', '-']
+
+/-- `Spells f next toks sems`: the tokens `toks`, standing before the tokens `next`, spell the
+items `sems` - every way of writing an option or a positional that the library's conventions
+make unambiguous (the side conditions are exactly those conventions). -/
+inductive Spells (f : Fmt) : List Str → List Str → List Sem → Prop
+  /-- a positional before `--`: `""`, `"-"`, or a token not starting with `-` -/
+  | pos {next v} : posLike v = true → Spells f next [v] [.pos v]
+  /-- `--name=value` -/
+  | longEq {next o v} : LongOK f o → o.accepts = true → v ≠ [] →
+      Spells f next [dd ++ o.long ++ '=' :: v] [.opt o (some v)]
+  /-- `--name=` : explicitly no value -/
+  | longEqNone {next o} : LongOK f o → o.accepts = true →
+      Spells f next [dd ++ o.long ++ ['=']] [.opt o none]
+  /-- `--name value` (the value is non-empty and does not start with `-`) -/
+  | longSp {next o v} : LongOK f o → o.accepts = true → valueLike v = true →
+      Spells f next [dd ++ o.long, v] [.opt o (some v)]
+  /-- `--name` for a flag; or for a value-taking option when nothing usable follows -/
+  | longBare {next o} : LongOK f o → (o.accepts = false ∨ stopsValue next = true) →
+      Spells f next [dd ++ o.long] [.opt o none]
+  /-- `-n`, `-nVALUE`, `-n VALUE`, `-abc`, `-abnVALUE`, `-abn VALUE` -/
+  | short {next take c r sems} : c ≠ '-' → GroupSpells f take next (c :: r) sems →
+      Spells f next (('-' :: c :: r) :: (match take with | none => [] | some v => [v])) sems
+
+/-- continuing the loop after some items -/
+def thenLoop (f : Fmt) (len : Bool) (r : PR St) (next : List Str) (po : Bool) : PR St :=
+  match r with
+  | .error e => .error e
+  | .ok σ' => loopF f len next po σ'
+
+/-- **One item**: the token loop on the tokens of an item followed by `next` does what the item
+means and continues with `next`. -/
+theorem spells_step (f : Fmt) (len : Bool) {next toks : List Str} {sems : List Sem} (h : Spells f next toks sems)
+    (σ : St) : loopF f len (toks ++ next) true σ = thenLoop f len (runSems f len sems σ) next true := by
+  cases h with
+  | @pos v hv =>
+    simp only [List.singleton_append, loopF_cons, step_pos f len v next σ hv, runSems, runSem, thenLoop, cont]
+    cases parseArgument f.fargs len v σ <;> rfl
+  | @longEq o v hl ha hv =>
+    obtain ⟨h1, h2, h3⟩ := hl
+    have hn : o.long ++ '=' :: v ≠ [] := by simp
+    have hv' : (v == []) = false := by simp [hv]
+    simp only [dd, List.cons_append, List.nil_append, List.singleton_append, loopF_cons,
+      step_long f len (o.long ++ '=' :: v) next σ hn, parseLong_eq f o.long o v next σ h2 h1 ha, hv',
+      Bool.false_eq_true, if_false, runSems, runSem, thenLoop, contOpt]
+    cases storeOpt o o.long (some v) σ <;> rfl
+  | @longEqNone o hl ha =>
+    obtain ⟨h1, h2, h3⟩ := hl
+    have hn : o.long ++ ['='] ≠ [] := by simp
+    simp only [dd, List.cons_append, List.nil_append, List.singleton_append, loopF_cons,
+      step_long f len (o.long ++ ['=']) next σ hn, parseLong_eq f o.long o [] next σ h2 h1 ha,
+      beq_self_eq_true, if_true, runSems, runSem, thenLoop, contOpt]
+    cases storeOpt o o.long none σ <;> rfl
+  | @longSp o v hl ha hv =>
+    obtain ⟨h1, h2, h3⟩ := hl
+    simp only [dd, List.cons_append, List.nil_append, loopF_cons, step_long f len o.long (v :: next) σ h3,
+      parseLong_sp f o.long o v next σ h2 h1 ha hv, runSems, runSem, thenLoop, contOpt]
+    cases storeOpt o o.long (some v) σ <;> rfl
+  | @longBare o hl hs =>
+    obtain ⟨h1, h2, h3⟩ := hl
+    simp only [dd, List.cons_append, List.nil_append, List.singleton_append, loopF_cons,
+      step_long f len o.long next σ h3, parseLong_bare f o.long o next σ h2 h1 hs, runSems, runSem, thenLoop,
+      contOpt]
+    cases storeOpt o o.long none σ <;> rfl
+  | @short take c r _ hc hg =>
+    have hp := parseShort_group f len hg (by simp) σ
+    cases take with
+    | none =>
+      simp only [List.cons_append, List.nil_append, loopF_cons, step_short f len c r next σ hc]
+      simp only [withTake] at hp
+      rw [hp]
+      simp only [optResult, thenLoop]
+      cases runSems f len sems σ <;> rfl
+    | some v =>
+      simp only [List.cons_append, List.nil_append, loopF_cons, step_short f len c r (v :: next) σ hc]
+      simp only [withTake] at hp
+      rw [hp]
+      simp only [optResult, thenLoop]
+      cases runSems f len sems σ <;> rfl
+
+/-- after `--` every token is a positional -/
+theorem loopF_tail (f : Fmt) (len : Bool) (tail : List Str) (σ : St) :
+    loopF f len tail false σ = runSems f len (tail.map Sem.pos) σ := by
+  induction tail generalizing σ with
+  | nil => simp [loopF_nil, runSems]
+  | cons v r ih =>
+    simp only [loopF_cons, step_tail, List.map_cons, runSems, runSem, cont]
+    cases parseArgument f.fargs len v σ with
+    | error e => rfl
+    | ok σ' => exact ih σ'
+
+/-- a whole command line: items, optionally followed by `--` and arbitrary tokens -/
+inductive SpellsLine (f : Fmt) : List Str → List Sem → Prop
+  | nil : SpellsLine f [] []
+  | tail {tail} : SpellsLine f (dd :: tail) (tail.map Sem.pos)
+  | cons {next toks sems sems'} : Spells f next toks sems → SpellsLine f next sems' →
+      SpellsLine f (toks ++ next) (sems ++ sems')
+
+/-- **The token loop implements the meaning of the spelled line.** -/
+theorem loop_spells (f : Fmt) (len : Bool) {line : List Str} {sems : List Sem} (h : SpellsLine f line sems) (σ : St) :
+    loopF f len line true σ = runSems f len sems σ := by
+  induction h generalizing σ with
+  | nil => simp [loopF_nil, runSems]
+  | @tail tail =>
+    simp only [dd, loopF_cons, step_dashes]
+    exact loopF_tail f len tail σ
+  | @cons next toks sems sems' hs _ ih =>
+    rw [spells_step f len hs σ, runSems_append]
+    simp only [thenLoop]
+    cases runSems f len sems σ with
+    | error e => rfl
+    | ok σ' => exact ih σ'
 
 end Clikit.Parser
